@@ -337,6 +337,56 @@ def named_logical_family(run):
                     break
 
 
+def ambiguous_records_by_name_family(run):
+    """a union of records of which the datum (a plain dict, no hint) conforms to several and matches a LATER one best; raw: the
+    records are defined in place inside the union; piecewise: they are pieces of their own and the union names them (all of
+    them / all but one)"""
+    click = {"type": "record", "name": "ev.Click", "fields": [{"name": "x", "type": ["null", "int"], "default": None}]}
+    key = {"type": "record", "name": "ev.Key", "fields": [{"name": "x", "type": ["null", "int"], "default": None}, {"name": "code", "type": "string"}]}
+    wheel = {"type": "record", "name": "ev.Wheel", "fields": [{"name": "x", "type": ["null", "int"], "default": None}, {"name": "code", "type": "string"},
+                                                             {"name": "delta", "type": "int"}]}
+    data = [{"x": 1, "code": "hi"}, {"x": None}, {"x": 2, "code": "w", "delta": 3}, {"code": "only"}]
+    for recs in ([click, key], [click, key, wheel], [key, wheel]):
+        for inline_one in (None, 0, len(recs) - 1):
+            for shape in ("field", "array", "top-union-in-record"):
+                names = [r_["name"] for r_ in recs]
+                u_raw = ["null"] + [copy.deepcopy(r_) for r_ in recs]
+                u_pw = ["null"] + [copy.deepcopy(r_) if i == inline_one else names[i] for i, r_ in enumerate(recs)]
+                pieces = [r_ for i, r_ in enumerate(recs) if i != inline_one]
+                if shape == "field":
+                    mk = lambda u: {"type": "record", "name": "ev.Env", "fields": [{"name": "e", "type": u}, {"name": "n", "type": "int"}]}
+                    vals = [{"e": d, "n": i} for i, d in enumerate(data)]
+                elif shape == "array":
+                    mk = lambda u: {"type": "record", "name": "ev.Env", "fields": [{"name": "es", "type": {"type": "array", "items": u}}]}
+                    vals = [{"es": data}]
+                else:
+                    mk = lambda u: {"type": "record", "name": "ev.Env", "fields": [{"name": "m", "type": {"type": "map", "values": u}}]}
+                    vals = [{"m": {"k%d" % i: d for i, d in enumerate(data)}}]
+                vals = [v for v in vals]
+                raw, parent = mk(u_raw), mk(u_pw)
+                named = {}
+                try:
+                    for pc in pieces:
+                        parse_schema(copy.deepcopy(pc), named)
+                    forms = {"parsed": parse_schema(copy.deepcopy(raw)), "piecewise": parse_schema(copy.deepcopy(parent), named)}
+                except Exception as e:  # noqa
+                    run.notes.append("ambiguous-records family: %r" % (e,))
+                    continue
+                usable = [v for v in vals if "err" not in str(ops(copy.deepcopy(raw), [v], 3).get("write", ""))[:5]]
+                base = ops(copy.deepcopy(raw), usable, 3)
+                for fname, obj in forms.items():
+                    got = ops(obj, usable, 3)
+                    case = {"schema": raw, "pieces": pieces, "parent": parent, "form": fname, "tags": ["ambiguous-records-by-name", fname, shape]}
+                    run.count(case, True, ["ambiguous-records-by-name:" + fname])
+                    for k in base:
+                        if k in ("canon", "container") and fname == "piecewise":
+                            continue        # (known finding F4)
+                        if observable(k, got.get(k)) != observable(k, base[k]):
+                            run.fail(dict(case, operation=k, with_raw=base[k], with_form=got.get(k), tags=case["tags"] + ["op:" + k]),
+                                     "%s gives a different result with the %s schema than with the raw schema" % (k, fname), kind="oracle")
+                            break
+
+
 def failed_parse_into_shared_dictionary(run):
     """pieces parsed against one shared dictionary, the parent parsed, then further parses into the SAME dictionary that fail
     — in every way a malformed schema can fail (a schema-parse error, an unknown type, or a plain KeyError / TypeError for
@@ -511,6 +561,7 @@ def run(tier, seed):
     resolution_family(run)
     failed_parse_into_shared_dictionary(run)
     named_logical_family(run)
+    ambiguous_records_by_name_family(run)
     # model: piecewise parsing registers the same names and gives a schema with the same named types
     res = run_batch(reqs) if reqs else []
     for (case, canon_raw), r in zip(meta, res):
